@@ -199,6 +199,10 @@ IsDirP(F, cs) == LET r == SRes(F, cs) IN Present(F, r) /\ F[r.loc].t = "d"
 LStatT(F, cs) == LET r == LRes(F, cs) IN
     IF r.e = "ENOENT" THEN "none" ELSE IF r.e # "ok" THEN "ERR"
     ELSE IF r.loc \notin DOMAIN F THEN "none" ELSE F[r.loc].t
+\* the lstat of update_working_tree: a leading component that is a file (ENOTDIR) also means "absent"
+LStatA(F, cs) == LET r == LRes(F, cs) IN
+    IF r.e \in {"ENOENT", "ENOTDIR"} THEN "none" ELSE IF r.e # "ok" THEN "ERR"
+    ELSE IF r.loc \notin DOMAIN F THEN "none" ELSE F[r.loc].t
 LNode(F, cs) == F[LRes(F, cs).loc]
 
 Children(F, loc) == {p \in DOMAIN F : Len(p) = Len(loc) + 1 /\ IsPrefix(loc, p)}
@@ -356,19 +360,41 @@ RemoveEmptyParents(S, pcs) ==
          ELSE IF r.e \in {"ENOENT", "ENOTEMPTY"} THEN S
          ELSE Err(S)
 
-\* remove a directory found where a blob is wanted or was tracked; strict: a non-empty directory is an error
-RemoveDir(S, cs, strict) ==
+\* the directory hierarchy at cs without its files: os.walk(topdown=False) + rmdir of every directory.
+\* If anything but directories is below, the first non-empty directory ends it with an error; the
+\* sub-hierarchies that consist of directories only have been removed by then (they are visited
+\* before their parents; the order of sibling directories is not modelled).
+ClearDirs(S, cs) ==
+    LET loc == LRes(S.F, cs).loc
+        D == Desc(S.F, loc)
+        allDir(p) == \A q \in Desc(S.F, p) : S.F[q].t = "d"
+    IN IF allDir(loc) THEN Do(S, R("ok", Remove(S.F, D), D))
+       ELSE LET gone == {p \in D \ {loc} : allDir(p)} IN Do(S, R("ENOTEMPTY", Remove(S.F, gone), gone))
+\* (Do keeps the touched set of a failed call; the file system of a failed call is adopted below)
+ClearDirsErr(S, cs) ==
+    LET loc == LRes(S.F, cs).loc
+        D == Desc(S.F, loc)
+        allDir(p) == \A q \in Desc(S.F, p) : S.F[q].t = "d"
+        gone == {p \in D \ {loc} : allDir(p)}
+    IN [S EXCEPT !.F = Remove(S.F, gone), !.t = S.t \cup gone, !.r = "err"]
+
+\* a directory found where a blob is wanted (_transition_to_file)
+RemoveDirForFile(S, cs) ==
     LET names == ListNames(S.F, cs) IN
-    IF ".git" \in names THEN
-        IF names = {".git"} THEN Do(S, Rmtree(S.F, cs))
-        ELSE IF strict THEN Err(S) ELSE LET r == Rmdir(S.F, cs) IN IF r.e = "ENOTEMPTY" THEN S ELSE Do(S, r)
-    ELSE LET r == Rmdir(S.F, cs) IN
-         IF r.e = "ENOTEMPTY" THEN (IF strict THEN Err(S) ELSE S) ELSE Do(S, r)
+    IF ".git" \in names THEN (IF names = {".git"} THEN Do(S, Rmtree(S.F, cs)) ELSE Err(S))
+    ELSE LET loc == LRes(S.F, cs).loc IN
+         IF \A q \in Desc(S.F, loc) : S.F[q].t = "d" THEN ClearDirs(S, cs) ELSE ClearDirsErr(S, cs)
+
+\* a directory found where a blob was tracked (_transition_to_absent): removed if empty, else left
+RemoveDirIfEmpty(S, cs) ==
+    LET names == ListNames(S.F, cs) IN
+    IF names = {".git"} THEN Do(S, Rmtree(S.F, cs))
+    ELSE LET r == Rmdir(S.F, cs) IN IF r.e = "ENOTEMPTY" THEN S ELSE Do(S, r)
 
 \* _transition_to_absent
 TransAbsent(S, cs, st) ==
-    IF st = "none" THEN S                                   \* returns before the index entry is dropped
-    ELSE LET S1 == IF st = "d" THEN RemoveDir(S, cs, FALSE) ELSE Do(S, Unlink(S.F, cs))
+    IF st = "none" THEN [S EXCEPT !.I = IdxDel(S.I, cs)]    \* nothing on disk, the entry still leaves the index
+    ELSE LET S1 == IF st = "d" THEN RemoveDirIfEmpty(S, cs) ELSE Do(S, Unlink(S.F, cs))
              S2 == IF S1.r = "run" THEN [S1 EXCEPT !.I = IdxDel(S1.I, cs)] ELSE S1
          IN RemoveEmptyParents(S2, Front(cs))
 
@@ -378,7 +404,7 @@ TransFile(S, cs, st, k) ==
                  ELSE IF st = "l" /\ k.t = "l" THEN LNode(S.F, cs).to # k.to
                  ELSE TRUE
     IN IF ~needs THEN [S EXCEPT !.I = IdxPut(S.I, cs, IdxFromFs(S.F, cs, k))]
-       ELSE LET S1 == IF st = "d" THEN RemoveDir(S, cs, TRUE)
+       ELSE LET S1 == IF st = "d" THEN RemoveDirForFile(S, cs)
                       ELSE IF st # "none" THEN Do(S, Unlink(S.F, cs)) ELSE S
                 S2 == IF S1.r = "run" /\ Len(cs) > 1 /\ ~Exists(S1.F, Front(cs))
                       THEN Do(S1, Makedirs(S1.F, Front(cs), FALSE)) ELSE S1
@@ -400,13 +426,14 @@ ApplyChange(S, ch, pr) ==
         IF ~ValidPath(ch.p, pr) THEN S
         ELSE IF FixDelete /\ VerifyLeading(S.F, ch.p) = "refused"
              THEN [S EXCEPT !.I = IdxDel(S.I, ch.p)]       \* repaired: the link is not followed, the entry is gone
-        ELSE LET st == LStatT(S.F, ch.p) IN
+        ELSE IF VerifyLeading(S.F, ch.p) = "err" /\ FixDelete THEN Err(S)
+        ELSE LET st == LStatA(S.F, ch.p) IN
              IF st = "ERR" THEN Err(S) ELSE TransAbsent(S, ch.p, st)
     ELSE
         IF ~ValidPath(ch.p, pr) THEN Refused(S)
         ELSE LET v == VerifyLeading(S.F, ch.p) IN
         IF v = "refused" THEN Refused(S) ELSE IF v = "err" THEN Err(S)
-        ELSE LET st == LStatT(S.F, ch.p) IN
+        ELSE LET st == LStatA(S.F, ch.p) IN
         IF st = "ERR" THEN Err(S)
         ELSE IF ch.new.t = "g" THEN TransSub(S, ch.p, st)
         ELSE TransFile(S, ch.p, st, ch.new)
@@ -420,13 +447,15 @@ BecomingDirsOk(F, chs) ==
     \A i \in 1..Len(chs), j \in 1..Len(chs) :
         (/\ chs[i].ty \in {"A", "M"} /\ Len(chs[i].p) > 1
          /\ chs[j].ty = "D" /\ Len(chs[j].p) < Len(chs[i].p) /\ IsPrefix(chs[j].p, chs[i].p))
-        => LET st == LStatT(F, chs[j].p) IN
+        => LET st == LStatA(F, chs[j].p) IN
            /\ st # "ERR"
            /\ st = "f" => FileMatches(F, chs[j].p, chs[j].old)
 
 UpdateWorkingTree(F, I, chs, pr) ==
     IF ~BecomingDirsOk(F, chs) THEN Err(St(F, I))
-    ELSE Done(ApplyChanges(St(F, I), chs, pr))
+    \* every removal first, then the additions and modifications (each in path order)
+    ELSE Done(ApplyChanges(ApplyChanges(St(F, I), SelectSeq(chs, LAMBDA c : c.ty = "D"), pr),
+                           SelectSeq(chs, LAMBDA c : c.ty # "D"), pr))
 
 (***************************************************************************)
 (* The tree an index stands for (Index.commit): nested by components       *)
